@@ -3,7 +3,7 @@ import Rangers.Model.MinerRefundHeight
 # C20 (continued) — the release height of a refund under every fork configuration
 
 Theorems about `refundHeightOf` (Model/MinerRefundHeight.lean), the model of `RefundManager.getRefundHeight` that the
-correspondence stream `rheight` runs next to the real function (hook `VerifC20RefundHeight`, stub group chain).
+correspondence stream `rheight` runs next to the real function (reached through the exported `GetRefundStake`, stub group chain).
 "Tokens scheduled for refund" are paid by `CheckAndMove` at exactly this height, so a refund is only ever paid if the
 height lies in the future of the block that schedules it.
 -/
